@@ -160,8 +160,14 @@ def execute(case):
         rows = case["rows"]
         Mr = len(rows)
         idx = torch.tensor(rows, dtype=torch.int64).reshape(Mr, d)
-        got = lib(lambda: x.apply_mask(idx))
-        ck.label("apply_mask", "M=%d" % Mr)
+        form = ["tensor", "tensor", "list", "tuples"][xs["seed"] % 4] if Mr > 0 else "tensor"
+        if form == "list":          # the docstring declares `indices (list[list[int]])`
+            got = lib(lambda: x.apply_mask([list(r) for r in rows]))
+        elif form == "tuples":
+            got = lib(lambda: x.apply_mask([tuple(r) for r in rows]))
+        else:
+            got = lib(lambda: x.apply_mask(idx))
+        ck.label("apply_mask", "M=%d" % Mr, "mask_form:" + form)
         ref = xd[tuple(idx[:, k] for k in range(d))] if Mr > 0 else xd.new_zeros([0])
         if ck.require(torch.is_tensor(got), "mask_type", "apply_mask returned %s" % type(got).__name__):
             if ck.require(list(got.shape) == [Mr], "mask_shape", "apply_mask with M=%d rows returned shape %s" % (Mr, list(got.shape))):
